@@ -119,6 +119,8 @@ def render_fn(f):
     deco = "@" + f["deco"] + ("" if args is None else "(%s)" % args)
     if f["extra"] == "before":
         lines.append(ind + "@some_decorator")
+    if f["extra"] == "kwdeco_before":
+        lines.append(ind + '@timed(name="stage_setup", scope="session", autouse=True)')
     if f["extra"] in ("usefix_before", "marks_around"):
         lines.append(ind + '@pytest.mark.usefixtures("mark_dep")')
     if f["extra"] == "indirect_before":
@@ -126,6 +128,8 @@ def render_fn(f):
     lines.append(ind + deco)
     if f["extra"] == "after":
         lines.append(ind + "@other.decorator(1)")
+    if f["extra"] == "kwdeco_after":
+        lines.append(ind + '@other.timed(name="stage_setup", scope="session", autouse=True)')
     if f["extra"] == "usefix_after":
         lines.append(ind + '@pytest.mark.usefixtures("mark_dep")')
     if f["extra"] in ("indirect_after", "marks_around"):
